@@ -124,7 +124,7 @@ def em(family, what, quick=None, thorough=None):
 
 
 ASG = {"V_U8_a": ("V_U8", 5, 400), "V_A3_a": ("V_A3", 9, 600), "STR8_a": ("STR8", 5, 900), "X_U8_a": ("X_U8", 6, 1500),
-       "U_S1_a": ("U_S1", 10, 900), "U_S2_a": ("U_S2", 12, 900), "U_S3_a": ("U_S3", 6, 1500), "U_E1_a": ("U_E1", 16, 1500),
+       "U_S1_a": ("U_S1", 10, 900), "U_S3_a": ("U_S3", 6, 1500), "U_E1_a": ("U_E1", 16, 1500),
        "U_E5_a": ("U_E5", 16, 900), "U_E6_a": ("U_E6", 7, 900), "U_E2_a": ("U_E2", 6, 600), "U_E3_a": ("U_E3", 10, 900), "U_E4_a": ("U_E4", 12, 1200), "U_PE_a": ("U_PE", 9, 900)}
 ASG_QUICK = ["V_U8_a", "V_A3_a", "U_S1_a", "U_E1_a", "U_E2_a", "U_E3_a", "U_E5_a", "U_E6_a", "U_PE_a"]
 
